@@ -20,3 +20,178 @@ pub fn text_bytes_precision(spec: &Spec, precision: usize) -> Vec<u8> {
 pub fn npy_bytes(spec: &Spec) -> Vec<u8> {
     crate::model::npy::write_numpy_like(&spec.shape, &crate::model::npy::Dtype::F8, crate::model::npy::Order::Little, 1, &spec.values.iter().map(|v| crate::model::npy::Scalar::F64(*v)).collect::<Vec<_>>())
 }
+
+// ---------------------------------------------------------------------------------------------
+// running `sfs create` on a generated call set
+
+use serde::{Deserialize, Serialize};
+
+use crate::{
+    cli::{self, Input, Run},
+    engine::Ctx,
+    gen::{
+        bcf, bgzf,
+        callset::{CallSet, MapSpec},
+    },
+};
+
+#[derive(Clone, Debug, PartialEq, Serialize, Deserialize)]
+pub enum Container {
+    Vcf,
+    VcfGz(bgzf::Layout),
+    Bcf(bgzf::Layout),
+    BcfRaw,
+}
+
+impl Container {
+    pub fn ext(&self) -> &'static str {
+        match self {
+            Container::Vcf => "vcf",
+            Container::VcfGz(_) => "vcf.gz",
+            Container::Bcf(_) => "bcf",
+            Container::BcfRaw => "raw.bcf",
+        }
+    }
+    pub fn label(&self) -> &'static str {
+        match self {
+            Container::Vcf => "vcf",
+            Container::VcfGz(_) => "bgzf-vcf",
+            Container::Bcf(_) => "bgzf-bcf",
+            Container::BcfRaw => "raw-bcf",
+        }
+    }
+}
+
+/// Renders the call set; returns the bytes and the number of BGZF blocks (0 if uncompressed).
+pub fn render(cs: &CallSet, c: &Container) -> (Vec<u8>, usize) {
+    match c {
+        Container::Vcf => (cs.to_vcf().into_bytes(), 0),
+        Container::VcfGz(l) => bgzf::compress(cs.to_vcf().as_bytes(), l),
+        Container::Bcf(l) => bgzf::compress(&bcf::to_bcf(cs).0, l),
+        Container::BcfRaw => (bcf::to_bcf(cs).0, 0),
+    }
+}
+
+#[derive(Clone, Debug, PartialEq, Serialize, Deserialize)]
+pub struct Projection {
+    /// target chromosomes m_j per population
+    pub m: Vec<usize>,
+    /// give as --project-individuals (requires even m_j)
+    pub individuals: bool,
+}
+
+#[derive(Clone, Debug, Default, PartialEq, Serialize, Deserialize)]
+pub struct CreateOpts {
+    /// None: no -s/-S at all (all samples, one unnamed population)
+    pub map: Option<MapSpec>,
+    pub project: Option<Projection>,
+    pub precision: Option<usize>,
+    pub strict: bool,
+    pub threads: Option<usize>,
+    /// number of -v flags
+    pub verbose: u8,
+}
+
+#[derive(Clone, Copy, Debug, PartialEq, Serialize, Deserialize)]
+pub enum Transport {
+    Path,
+    StdinFile,
+    StdinPipe,
+}
+
+pub fn join(v: &[usize]) -> String {
+    v.iter().map(|x| x.to_string()).collect::<Vec<_>>().join(",")
+}
+
+pub fn create_argv(cs: &CallSet, opts: &CreateOpts, input_name: Option<&str>, samples_file: &str) -> Vec<String> {
+    let mut a: Vec<String> = vec!["create".into()];
+    for _ in 0..opts.verbose {
+        a.push("-v".into());
+    }
+    if let Some(map) = &opts.map {
+        if map.as_file {
+            a.push("-S".into());
+            a.push(samples_file.into());
+        } else {
+            a.push("-s".into());
+            a.push(map.inline_arg(cs));
+        }
+    }
+    if let Some(p) = &opts.project {
+        if p.individuals {
+            a.push("-p".into());
+            a.push(join(&p.m.iter().map(|m| m / 2).collect::<Vec<_>>()));
+        } else {
+            a.push("--project-shape".into());
+            a.push(join(&p.m.iter().map(|m| m + 1).collect::<Vec<_>>()));
+        }
+    }
+    if let Some(p) = opts.precision {
+        a.push("--precision".into());
+        a.push(p.to_string());
+    }
+    if opts.strict {
+        a.push("--strict".into());
+    }
+    if let Some(t) = opts.threads {
+        a.push("-t".into());
+        a.push(t.to_string());
+    }
+    if let Some(n) = input_name {
+        a.push(n.into());
+    }
+    a
+}
+
+/// Writes the input (and the samples file if needed) into `dir` under `tag` and runs `sfs create`.
+pub fn run_create(ctx: &Ctx, dir: &std::path::Path, tag: &str, cs: &CallSet, container: &Container, opts: &CreateOpts, transport: Transport) -> (Run, Vec<String>) {
+    let (bytes, _) = render(cs, container);
+    run_create_bytes(ctx, dir, tag, cs, &bytes, container.ext(), opts, transport)
+}
+
+pub fn run_create_bytes(ctx: &Ctx, dir: &std::path::Path, tag: &str, cs: &CallSet, bytes: &[u8], ext: &str, opts: &CreateOpts, transport: Transport) -> (Run, Vec<String>) {
+    let input_name = format!("{tag}.{ext}");
+    std::fs::write(dir.join(&input_name), bytes).expect("write input");
+    let samples_file = format!("{tag}.samples");
+    if let Some(map) = &opts.map {
+        if map.as_file {
+            std::fs::write(dir.join(&samples_file), map.file_text(cs)).expect("write samples file");
+        }
+    }
+    match transport {
+        Transport::Path => {
+            let argv = create_argv(cs, opts, Some(&input_name), &samples_file);
+            (cli::sfs(ctx, &argv, Input::Null, dir), argv)
+        }
+        Transport::StdinFile => {
+            let argv = create_argv(cs, opts, None, &samples_file);
+            let p = dir.join(&input_name);
+            (cli::sfs(ctx, &argv, Input::File(&p), dir), argv)
+        }
+        Transport::StdinPipe => {
+            let argv = create_argv(cs, opts, None, &samples_file);
+            (cli::sfs(ctx, &argv, Input::Pipe(bytes), dir), argv)
+        }
+    }
+}
+
+/// `Skipped X/Y sites` from stderr, if present.
+pub fn parse_skipped(stderr: &str) -> Option<(usize, usize)> {
+    let i = stderr.find("Skipped ")?;
+    let rest = &stderr[i + 8..];
+    let end = rest.find(' ')?;
+    let (x, y) = rest[..end].split_once('/')?;
+    Some((x.parse().ok()?, y.parse().ok()?))
+}
+
+use proptest::prelude::*;
+
+/// Container mix weighted to plain VCF.
+pub fn container_strategy() -> impl Strategy<Value = Container> {
+    prop_oneof![
+        5 => Just(Container::Vcf),
+        2 => bgzf::layout_strategy().prop_map(Container::VcfGz),
+        2 => bgzf::layout_strategy().prop_map(Container::Bcf),
+        1 => Just(Container::BcfRaw),
+    ]
+}
